@@ -35,8 +35,8 @@ CHECKS = {
    text='xdynamic_bitset_base for the owning bitset and for the view over caller memory, xdynamic_bitset (constructors, resize, push/pop_back, clear, assign, copy), the view constructor and xbitset_reference are lowered on every run '
         'and every operation is proved against the abstract bit sequence (ghost bit index, so every bit) with inductive loop contracts for symbolic sizes up to 10^6 blocks: wf (block count, zero tail, exact-size fresh block array) is preserved, '
         'set/reset/flip, <<= and >>= for every amount in size_t, &= |= ^=, all/any/none/count/==, operator[] / at() (throws exactly for i >= size()) and the size-changing operations realise std::vector<bool> semantics; '
-        'the frame is the block array only. Quick: 8-bit blocks; thorough: 8/16/32/64.',
-   note=PROOF_NOTE + 'std::vector/std::fill model is C with loop contracts discharged in place; views lowered with NDEBUG; preconditions as for std::vector<bool>; temporaries-returning operators and iterators not under this check (listed in evidence).',
+        'the frame is the block array only; the free operators | & ^ ~ (through one-line wrappers, library code inlined) return an owning bitset with the combined bits and write nothing visible to the caller - a view operand\'s memory in particular. Quick: 8-bit blocks; thorough: 8/16/32/64.',
+   note=PROOF_NOTE + 'std::vector/std::fill model is C with loop contracts discharged in place; views lowered with NDEBUG; preconditions as for std::vector<bool>; operator<< / >> returning temporaries and iterators not under this check (listed in evidence).',
    technique='CBMC code contracts with loop invariants (DFCC) on mechanically lowered code; ghost index / ghost witness', design='4 C03'),
  'C08': dict(
    text='The integer kernels of half (float/double->half, half->float/double, operator+ - * /, fma, sqrt, the six comparisons, classification, fabs/copysign/negation, hash) are lowered on every run and proved equal to '
@@ -45,16 +45,17 @@ CHECKS = {
    note=PROOF_NOTE + 'Multiplication/division/fma use uninterpreted * / % with stated range axioms; quick tier proves fma on the special-value slice only (thorough: all 2^48 triples); F16C path by assumption; NaN payloads unspecified.',
    technique='CBMC code contracts (DFCC) on mechanically lowered code; full-domain bit-precise SAT against IEEE spec functions', design='4 C08'),
  'C01': dict(
-   text='xbasic_fixed_string<char,N> (packed-size layout N=7 and N=255, size-field layout N=256, throwing policy) is lowered on every run; the storage classes (size/set_size/adjust_size), the error policy and the counted core of the API '
-        '(assign, push/pop_back, append, resize, insert, erase, replace, copy, clear, compare, at/[]/front/back, the character search overloads with explicit and with DEFAULTED positions) are proved against the std::basic_string specification '
+   text='xbasic_fixed_string<char,N> (packed-size layout N=7 and N=255, size-field layout N=256, strlen-sized layout N=7, throwing policy) is lowered on every run; the storage classes (size/set_size/adjust_size), the error policy, the counted core of the API '
+        '(assign, push/pop_back, append, resize, insert, erase, replace, copy, clear, compare, at/[]/front/back, the character search overloads with explicit and with DEFAULTED positions) and, for the small packed configuration, the forwarding overloads '
+        '(sources given as another fixed string, as a std::string, as an iterator range; positions given as iterators incl. end() and empty ranges; +=, resize(n), substr, swap, compare with std::string) are proved against the std::basic_string specification '
         'written over the abstract view (len, chars, terminator) from ANY wf state - every length 0..N including exactly N, stale bytes after the terminator - with a ghost character index covering the whole N+1 buffer.',
-   note=PROOF_NOTE + 'char only; strlen layout, silent policy, std::string/initializer_list/iterator/C-string overloads, operator+ and counted-needle searches are not under contract (evidence.not_reached); copy-loop functions at N=255/256 only in the thorough tier (12 min each).',
+   note=PROOF_NOTE + 'char only; silent policy, initializer_list / NUL-terminated C-string overloads (unbounded strlen), operator+, stream operators and counted-needle searches are not under contract (evidence.not_reached); copy-loop functions and the forwarding overloads at N=255/256 only in the thorough tier. One recorded finding: resize(count) pads with a blank, std::string with CharT().',
    technique='CBMC code contracts (DFCC) on mechanically lowered code; loop contracts in the char_traits model; ghost index', design='4 C01'),
  'C02': dict(
    text='Same lowered code and contracts as C01, claimed for their exceptional and safety parts: every operation throws length_error exactly when the result would exceed N and out_of_range exactly when a position exceeds the relevant length, '
         'and after either exception every one of the N+1 buffer elements and the length field are unchanged (ghost index over the whole buffer); argument ranges are fresh objects of exactly count elements (over-reads fail a pointer obligation), '
         'the frame of every operation is the string object itself.',
-   note=PROOF_NOTE + 'Same reach as C01 (char; packed N=7/255, size-field N=256; throwing policy). A stray write of the correct value into m_size is not distinguishable (stated in DESIGN.md).',
+   note=PROOF_NOTE + 'Same reach as C01 (char; packed N=7/255, size-field N=256, strlen-sized N=7; throwing policy; forwarding overloads incl. the std::string ones on the small packed configuration). A stray write of the correct value into m_size is not distinguishable (stated in DESIGN.md).',
    technique='CBMC code contracts (DFCC): exceptional postconditions, frame and pointer obligations on mechanically lowered code', design='4 C02'),
  'C04': dict(
    text='Every operator, comparison, compound assignment, lifted <cmath> function, select and value_or overload of xoptional and xmasked_value that clang instantiates for the generated shape matrix '
@@ -64,10 +65,10 @@ CHECKS = {
    note=PROOF_NOTE + 'Operand types int and double; machine * / % and <cmath> functions are uninterpreted functions shared by code and spec; non-evaluation of non-trapping operations is not observable with these types.',
    technique='CBMC code contracts (DFCC) with generated contracts per instantiated overload; full-domain SAT', design='4 C04'),
  'C12': dict(
-   text='xbitset_iterator<xdynamic_bitset<uint8_t>> and xstepping_iterator<int*> (steps 1 and 3; thorough adds 2 and 7), including the friend operators that xbidirectional_iterator_base / xrandom_access_iterator_base generate for them '
+   text='xbitset_iterator<xdynamic_bitset<uint8_t>>, xstepping_iterator<int*> (steps 1 and 3; thorough adds 2 and 7) and the paired iterators of the optional / complex vectors (xoptional_iterator, xcomplex_iterator; representation invariant: both sub-iterators at one position), including the friend operators that xbidirectional_iterator_base / xrandom_access_iterator_base generate for them '
         '(+, n+it, -, postfix ++/--, [], <=, >=, >, !=): every function carries a contract over the abstract position (bit index / element offset); the laws of the property - (it+n)-it == n, (it+n)-n == it, n+it == it+n, '
         'postfix returns the old position, a<b iff b-a>0, the derived comparisons agree with < and ==, begin..end visits each bit exactly once in order - are lemma harnesses proved over the contracts alone.',
-   note=PROOF_NOTE + 'Two iterator kinds, fixed element types; positions unbounded within a container of up to 2^40 bits / 10^6 ints. it[n] == *(it+n) is carried by the two contracts, not by a lemma harness; stepping-iterator traversal lemma not closed.',
+   note=PROOF_NOTE + 'Four iterator kinds, fixed element types; key/value map iterators, the size_t extension base and operator[] of xoptional_iterator are not reached; positions unbounded within a container of up to 2^40 bits / 10^6 ints. it[n] == *(it+n) is carried by the two contracts, not by a lemma harness; stepping-iterator traversal lemma not closed.',
    technique='CBMC code contracts (DFCC) on mechanically lowered iterator classes and CRTP friend operators; law lemmas over contracts (replace-call-with-contract)', design='4 C12'),
  'C20': dict(
    text='executable_path(), prefix_path() (Linux branch) and endianness() are lowered and proved against contracts over a ghost install path of ANY length 1..PATH_MAX and any non-NUL bytes: '
@@ -79,19 +80,19 @@ CHECKS = {
    text='xoptional_vector / xoptional_array (value storage + bitset of flags) and xcomplex_vector (real + imaginary vectors): every constructor (incl. the defaulted ones, through a wrapper), the three resize overloads, '
         'at / operator[] / front / back (const and non-const), size, empty, == and != carry contracts over the abstract sequence of pairs: the LOCKSTEP invariant (both storages well formed, length == size()) is required and re-established, '
         'element g after the operation is the stated pair for an arbitrary g, proxies designate exactly (&values[i], flag bit i), at() throws exactly for i >= size(), == is true exactly when sizes, values and flags match (ghost witnesses for inequality).',
-   note=PROOF_NOTE + 'int elements, uint8_t flag blocks; sizes up to 10^6 (unbounded in the proof, loop contracts in the vector model). Bitset members enter through their C03 contracts. Iterators of the sequences are exercised by the native replay only (not_reached).',
+   note=PROOF_NOTE + 'int elements, uint8_t flag blocks; sizes up to 10^6 (unbounded in the proof, loop contracts in the vector model). Bitset members enter through their C03 contracts. The primitives of the vector variants\' iterators (xoptional_iterator, xcomplex_iterator) are under contract (both sub-iterators move in lockstep, dereference designates (values[k], flag k)); begin()/end() and the const / reverse / array instantiations are exercised by the native replay only.',
    technique='CBMC code contracts (DFCC) on mechanically lowered sequence classes; callee contracts of C03 reused (replace-call-with-contract); native replay of operation histories under ASan', design='4 C11'),
  'C10': dict(
    text='xcomplex<float> operators through one wrapper per overload (the library code is inlined into each proof): + - * / unary minus == != on value closures, reference closures (same results; compound assignment writes the referents and never rebinds), '
-        'mixed real/complex forms; naive mode equals the textbook formulas term for term; ieee mode: C99 Annex G clauses for * and / stated literally with CBMC\'s bit-precise float semantics for EVERY operand (all 2^128 operand combinations), '
+        'mixed real/complex forms in both orders (s*z, z*s, z/s, s/z, s+z, s-z; s/z also in ieee mode); naive mode equals the textbook formulas term for term; ieee mode: C99 Annex G clauses for * and / stated literally with CBMC\'s bit-precise float semantics for EVERY operand (all 2^128 operand combinations), '
         'plus the scaling clause for divisors +-2^k of any normal magnitude. One recorded finding (finite / infinity with an overflowing dividend).',
    note=PROOF_NOTE + 'float only; "within a few units of rounding" is decided as equality with the float-evaluated textbook formula (no error analysis); the formula contracts use uninterpreted float arithmetic (commutative + and *). Loop-free except the 24-step subnormal loop of the logb model (unwinding assertions).',
    technique='CBMC code contracts (DFCC) with bit-precise IEEE-754 semantics for the Annex G clauses and uninterpreted float arithmetic for the formula contracts; native replay on counterexample operands and a special-value grid', design='4 C10'),
  'C07': dict(
    text='closure() / const_closure() for T&, const T&, T&&, const T&& sources, xclosure_wrapper operations (assign value, assign closure, copy, swap member/free, &, get, conversion, ==), optional(x, flag) over lvalues and rvalues with assignment and conversion, '
-        'xbitset_reference assignment, forward_sequence of same-type lvalues, and converting construction from an rvalue optional of references with an instrumented payload: 27 wrapper functions, each with a contract stating pointer identity with the original object '
+        'xbitset_reference assignment, forward_sequence of same-type lvalues, converting construction from an rvalue optional of references with an instrumented payload, wrappers over the explicitly named traits closure_type_t / const_closure_type_t for T&, const T&, T&& sources, get() on rvalue closures, the free value() / has_value() on temporary optionals of references, closure_pointer / const_closure_pointer: 43 wrapper functions, each with a contract stating pointer identity with the original object '
         '(aliasing, no copy), independence of owned copies, write-through without rebinding, exchange of referent values, and that referents not owned by the source are not moved from.',
-   note=PROOF_NOTE + 'Loop-free: complete for the instantiated wrapper kinds and categories. Lifetimes are not modelled (owning = value member). xclosure_pointer / xproxy_wrapper and the purely type-level identities are not reached.',
+   note=PROOF_NOTE + 'Loop-free: complete for the instantiated wrapper kinds and categories. Lifetimes are not modelled (owning = value member). xproxy_wrapper, move-only payloads and the type-level identities not instantiated by a wrapper are not reached.',
    technique='CBMC code contracts (DFCC) on mechanically lowered closure / optional / bitset-reference code: references become pointers, aliasing is pointer equality in the contract; native replay with a copy-counting payload under ASan', design='4 C07'),
  'C09': dict(
    text='PARTIAL: the half functions that the property requires to agree exactly with the float functions - ceil floor trunc round rint nearbyint lround lrint frexp ldexp scalbn scalbln modf ilogb logb - and nextafter, fdim, fmax, fmin '
